@@ -18,13 +18,18 @@ from ..world import OpGen, SkipOp
 
 
 def dnc_names(world, role):
+    """Attributes declared do_not_copy for instances of `role`: Attr(do_not_copy=True) flags plus the decorator option of
+    the class that decides -- the parent's for the parent and for a plain subclass, the spec subclass's own for its
+    instances (the grammar always repeats flagged attributes there)."""
     info = world.info(role)
     names = {n for n, a in info.items() if a.get("flags", {}).get("do_not_copy")}
-    for r in ("host", "sub"):
-        spec = world.spec["host"] if r == "host" else (world.spec.get("sub") or {})
-        opt = (spec.get("options") or {}).get("do_not_copy")
-        if isinstance(opt, list) and (r == "host" or role == "sub"):
-            names.update(opt)
+    sub = world.spec.get("sub") or {}
+    if role == "sub" and sub.get("kind") == "spec":
+        opt = (sub.get("options") or {}).get("do_not_copy")
+    else:
+        opt = (world.spec["host"].get("options") or {}).get("do_not_copy")
+    if isinstance(opt, list):
+        names.update(opt)
     return names
 
 
@@ -70,8 +75,8 @@ class C02(HistoryCheck):
     # object and in-place element helpers edit it for every instance (C08 territory, and excluded there too).
     PROFILE = {"allow_frozen": False, "allow_class_dnc": False, "allow_init_false": False}
     # the property quantifies over "transforms that return new objects": functions handing back their input are out
-    OPGEN = {"p_bad": 0.1, "p_inplace": 0.2, "exclude_fns": ["ident", "missing", "rev"],
-             "weights": {"new": 2, "scalar": 6, "element": 8, "toplevel": 3, "set": 2, "del": 1, "get": 1,
+    OPGEN = {"p_bad": 0.1, "p_inplace": 0.2, "exclude_fns": ["ident", "missing", "rev"], "p_alias": 0.4,
+             "weights": {"new": 2, "scalar": 6, "element": 8, "toplevel": 3, "set": 3, "del": 1, "get": 1,
                          "deepcopy": 2.5, "mutate": 0}}
     N_OPS = {"quick": (5, 14), "thorough": (8, 24)}
     RULE = ("after each copy-on-write helper / deepcopy of a seeded history: identity-graph intersection of receiver and "
